@@ -108,13 +108,13 @@ Proof.
   bc_cases; rewrite Hg, Hh by lia; reflexivity.
 Qed.
 
-Lemma map4 : forall (A B : Type) (f : A -> B) X a b c d g, is4 X a b c d g ->
+Lemma map_4 : forall (A B : Type) (f : A -> B) X a b c d g, is4 X a b c d g ->
   is4 (np_map f X) a b c d (fun i j k l => f (g i j k l)).
 Proof.
   intros A B f X a b c d g (He & Hs & Hg). unfold np_map, is4. cbn [err shp elt].
   repeat split; auto. intros. rewrite Hg by assumption. reflexivity.
 Qed.
-Lemma map2 : forall (A B : Type) (f : A -> B) X a b g, is2 X a b g -> is2 (np_map f X) a b (fun i j => f (g i j)).
+Lemma map_2 : forall (A B : Type) (f : A -> B) X a b g, is2 X a b g -> is2 (np_map f X) a b (fun i j => f (g i j)).
 Proof.
   intros A B f X a b g (He & Hs & Hg). unfold np_map, is2. cbn [err shp elt].
   repeat split; auto. intros. rewrite Hg by assumption. reflexivity.
